@@ -76,9 +76,19 @@ def toks(s):
     return [(t[0], t[1]) for t in R.lex(s)]
 
 
+_ct = [0]
+
+
 def check_tree(ctx, node, meta, opts=OPTS, det=None):
     det = det or {}
-    tree = Tree(node, metadata=dict(meta))
+    _ct[0] += 1
+    if _ct[0] % 2:
+        tree = Tree(node, metadata=dict(meta))
+    else:
+        # assembled the other way round: a bare Tree, annotated in place afterwards
+        tree = Tree(node)
+        for k_, v_ in meta.items():
+            tree.metadata[k_] = v_
     base = None
     codec = penman.PENMANCodec()
     plain = {}
@@ -150,6 +160,8 @@ def decorate(rng, node):
     for r, t in br:
         if isinstance(t, tuple):
             t = decorate(rng, t)
+        if r == '/' and t is not None and rng.random() < 0.08:
+            r = ':instance'       # the concept spelled with its explicit role (parser-producible)
         out.append((r, t))
         x = rng.random()
         if x < 0.06:
